@@ -17,6 +17,9 @@ type scheduler struct {
 	n        int32
 	done     [8]int32
 	inCall   [8]int32 // 1 while the task is inside a library call
+	locks    [8]int32 // library locks the task holds (it is not parked meanwhile)
+	pending  int32    // 1 + task to switch to once the running task has released its locks
+	heldBack int64    // preemptions postponed because the running task held a lock
 	yields   int64
 	points   []point
 	next     int
@@ -84,6 +87,12 @@ func yieldHook(site int) {
 		if t == me || s.done[t] != 0 {
 			continue
 		}
+		if s.locks[me] > 0 {
+			// never park a lock holder: the switch happens at its last unlock
+			s.pending = 1 + t
+			s.heldBack++
+			continue
+		}
 		s.nswitch++
 		s.swHash = (s.swHash ^ uint64(s.yields)<<20 ^ uint64(me)<<8 ^ uint64(t) ^ uint64(site)<<40) * 0x9E3779B97F4A7C15
 		if s.inCall[me] != 0 {
@@ -103,6 +112,33 @@ func yieldHook(site int) {
 	}
 	for s.cur != me {
 		runtime.Gosched()
+	}
+}
+
+// lockHook is installed as zzsimyield.LockHook.
+//
+//go:norace
+func lockHook(delta int) {
+	s := &sched
+	if s.counting != 0 || s.active == 0 {
+		return
+	}
+	me := s.cur
+	s.locks[me] += int32(delta)
+	if s.locks[me] < 0 {
+		s.locks[me] = 0
+	}
+	if s.locks[me] == 0 && s.pending != 0 {
+		t := s.pending - 1
+		s.pending = 0
+		if t != me && s.done[t] == 0 {
+			s.nswitch++
+			s.swHash = (s.swHash ^ uint64(s.yields)<<20 ^ uint64(me)<<8 ^ uint64(t) ^ 0xFFFF<<40) * 0x9E3779B97F4A7C15
+			s.cur = t
+			for s.cur != me {
+				runtime.Gosched()
+			}
+		}
 	}
 }
 
